@@ -2,7 +2,7 @@ from vlib.props import pcommon
 from vlib import framework as fw
 from vlib.monitors import lexmon
 
-RULE = ("terminal sets of 2..{k} distinct recognisers from strings {s} and regexes {r} x priorities {{0,10,15}} x at "
+RULE = ("terminal sets of 2..{k} distinct recognisers from strings {s}, regexes {r} and a custom (Python) recogniser for b+ x priorities {{0,10,15}} x at "
         "most one `prefer` x semantically neutral explicit marks (finish on strings, nofinish on regexes) x two "
         "grammar shapes (all expected at once / a sub-set expected after a prefix) x ignore_case x every input over "
         "{{a,b,c}} up to length {m}; real Grammar/Parser/GLRParser; oracle: documented order (vlib/spec/lex.py); "
